@@ -18,7 +18,7 @@ func init() {
 	register(
 		&Rule{ID: "R08.1", Props: []string{"C08", "C14", "C01", "C04"}, Floor: 18, Title: "wire-serialisability: no record type crossing a JSON/msgpack boundary holds a non-empty interface unless its holder has custom (un)marshalers for both codecs", Run: r081},
 		&Rule{ID: "R08.2", Props: []string{"C08"}, Floor: 14, Title: "json and codec keys are unique per struct after embedding; fields compared by Equals are not excluded from a codec", Run: r082},
-		&Rule{ID: "R08.3", Props: []string{"C08"}, Floor: 20, Title: "protobuf writer and reader of a pin touch the same message fields; every api.Pin field is restored (or documented lossy); optional messages are read through nil-safe getters", Run: r083},
+		&Rule{ID: "R08.3", Props: []string{"C08", "C01"}, Floor: 20, Title: "protobuf writer and reader of a pin touch the same message fields; every api.Pin field is restored (or documented lossy); optional messages are read through nil-safe getters", Run: r083},
 		&Rule{ID: "R08.4", Props: []string{"C08", "C11"}, Floor: 20, Title: "query-string form: every key the writers set is read by the readers; the metadata prefix is added and removed with the same constant and TrimPrefix", Run: r084},
 		&Rule{ID: "R08.5", Props: []string{"C08"}, Floor: 10, Title: "enum text forms are mutually inverse on the declared constants; status maps cover every constant", Run: r085},
 		&Rule{ID: "R08.6", Props: []string{"C08", "C11"}, Floor: 12, Title: "decoder hygiene: decoders do not panic, use no unchecked type assertion and drop no callee error", Run: r086},
